@@ -78,7 +78,7 @@ CHECKS["C11"] = dict(
                 "oracle against an independently written layout codec."),
     level_note="Trusted: harness/common/ref.go (the layout, written from the statement / KNX 03_06_03).",
     technique="exhaustive enumeration + rapid sampling, byte-level differential against an independent reference codec",
-    assumptions=["the 4-bit transport sequence number is carried only when the numbered flag is set (encoder side)"],
+    assumptions=["an unnumbered transport unit carries no sequence number: bits 5..2 of its TPCI octet are zero whatever the value's SeqNumber field holds (KNX 03_03_04; the reference encoder writes it that way)"],
     jobs=[dict(name="pure", pkg="./pure", go=GO, test="TestC11", shards=(2, 16), checks=(30000, 400000), timeout=(300, 3000))],
 )
 
@@ -141,9 +141,10 @@ CHECKS["C08"] = dict(
     level_text=("Exhaustive on the short payload spaces and on all lengths 0..20 over a boundary alphabet, sampled elsewhere; oracle: no "
                 "panic, wrong length => error, success => independently written range predicate holds and String()/Unit() return."),
     level_note="Trusted: the range predicates and the length table in harness/dptc (written from the documented ranges).",
-    technique="exhaustive enumeration + rapid byte-string generation; totality (panic capture), length-rejection and independent range-predicate oracles",
+    technique="exhaustive enumeration + rapid byte-string generation + go native fuzzing (thorough); totality (panic capture), length-rejection and independent range-predicate oracles",
     assumptions=["types whose main number is not in the harness length table are only checked for totality"],
-    jobs=[dict(name="dpt", pkg="./dptc", go=GO, test="TestC08", shards=(4, 16), checks=(30000, 400000), timeout=(300, 3000))],
+    jobs=[dict(name="dpt", pkg="./dptc", go=GO, test="TestC08", shards=(4, 16), checks=(30000, 400000), timeout=(300, 3000)),
+          dict(name="fuzz-dpt", kind="fuzz", pkg="./dptc", go=GO, target="FuzzDPTUnpack", fuzztime=60)],
 )
 
 CHECKS["C19"] = dict(
